@@ -19,7 +19,7 @@ EXTENDS Naturals, Sequences, FiniteSets, TLC
 
 CONSTANT NotForwarded    \* set of channels the wrapper does NOT forward (as built: {})
 
-Channels == {"ser", "attrs", "de", "check", "check_memo", "debug", "default", "clone_shares"}
+Channels == {"ser", "attrs", "attrs_ns", "de", "check", "check_memo", "debug", "default", "clone_shares"}
 Forward(ch) == ch \notin NotForwarded
 
 RECURSIVE Erase(_)
@@ -61,9 +61,17 @@ HoistedAttrs(v) == CASE v.k = "wrap" -> IF Forward("attrs") THEN (IF v.inner.k =
                      [] v.k = "node" -> v.attrs
                      [] OTHER -> {}
 
+\* serialize_attributes returns the attributes AND the prefix bindings of the value (a node may be of another namespace
+\* than the struct it is flattened into: v.nsdecl = the prefixes its own type declares)
+NsDecl(v) == IF "nsdecl" \in DOMAIN v THEN v.nsdecl ELSE {}
+HoistedNs(v) == CASE v.k = "wrap" -> IF Forward("attrs") /\ Forward("attrs_ns") THEN (IF v.inner.k = "node" THEN NsDecl(v.inner) ELSE {}) ELSE {}
+                  [] v.k = "node" -> NsDecl(v)
+                  [] OTHER -> {}
+
 \* C19: wrapping changes nothing observable
 Transparent(v) == /\ Ser(v) = Ser(Erase(v))
                   /\ Check(v) = Check(Erase(v))
                   /\ HoistedAttrs(v) = HoistedAttrs(Erase(v))
+                  /\ HoistedNs(v) = HoistedNs(Erase(v))
                   /\ HistTransparent(v)
 =======================================================================
